@@ -116,8 +116,8 @@ def judge_values(p, key, cj, ev_red, ev_full, L, N, m, cols, allowed_keys=None):
             want[:] = 1
         elif (X, Z) in index:
             want[index[(X, Z)]] = 1
-        if not np.array_equal(got, want):
-            j = int(np.argmax(got != want))
+        if not np.allclose(got, want, rtol=0, atol=1e-9):
+            j = int(np.argmax(np.abs(got - want)))
             bad.append(("wrong-reduced-value",
                         "measured qubits %s of %d: for the register state (I + %s)/2^N the value reported for the %d-qubit Pauli %s is %s, "
                         "exact Tr(rho P) = %s" % (L, N, to_str(collist[j] + (0,), N, False), m, to_str((x, z, 0), m, False), got[j], want[j])))
@@ -143,8 +143,8 @@ def judge_values(p, key, cj, ev_red, ev_full, L, N, m, cols, allowed_keys=None):
                 want[:] = 1
             elif k2 in index:
                 want[index[k2]] = 1
-            if not np.array_equal(got, want):
-                j = int(np.argmax(got != want))
+            if not np.allclose(got, want, rtol=0, atol=1e-9):
+                j = int(np.argmax(np.abs(got - want)))
                 bad.append(("wrong-full-value", "measured qubits %s of %d: full-register key %s has value %s for the state (I + %s)/2^N, exact %s"
                             % (L, N, to_str(k2 + (0,), N, False), got[j], to_str(collist[j] + (0,), N, False), want[j])))
                 break
